@@ -160,6 +160,42 @@ def history_cases(ctx, rng, scale, add, dist, failures):
             dist['hist_revivals'] += int(op == 'train' and thr > 0 and any(r.before['embed'] != r.after['embed'] for r in recs))
 
 
+def magnitude_cases(ctx, rng, scale, add, dist, failures):
+    """codebook AND inputs at very small / very large magnitude (dyadic grids scaled by powers of two, so the check stays exact, tol 0), for
+    EMA, learnable and orthogonally regularised Euclidean codebooks: an absolute epsilon inside the distance must not decide the winner"""
+    import torch
+    from vector_quantize_pytorch import VectorQuantize
+    n = (12 if not ctx.thorough else 60) * scale
+    for ci in range(n):
+        mode = ['ema', 'learnable', 'orth'][ci % 3]
+        mag = [2.0 ** -17, 2.0 ** -24, 2.0 ** 10, 2.0 ** -12][(ci // 3) % 4]
+        d, K = rng.choice([2, 3]), rng.choice([4, 6, 8])
+        kw = dict(dim=d, codebook_size=K, decay=0.5)
+        if mode == 'learnable':
+            kw.update(learnable_codebook=True, ema_update=False)
+        elif mode == 'orth':
+            kw.update(orthogonal_reg_weight=0.5)
+        vq = VectorQuantize(**kw)
+        vqrec.set_codebook_grid(vq, rng)
+        with torch.no_grad():
+            vq._codebook.embed.data.mul_(mag)
+            vq._codebook.embed_avg.data.mul_(mag)
+        for op in ('eval', 'frozen'):
+            vq.train(op != 'eval')
+            x = vqrec.grid(rng, (2, 4, d)) * mag
+            try:
+                with torch.no_grad():
+                    _, recs = vqrec.record_call(vq, x, **({'freeze_codebook': True} if op == 'frozen' else {}))
+            except Exception as ex:
+                failures.append({'key': f'vq-magnitude:exception:{type(ex).__name__}', 'what': f'VectorQuantize({kw}) at magnitude {mag}: {ex!r}', 'case': dict(kw=kw, mag=mag)})
+                break
+            for r in recs:
+                cb = r.before['embed'][0]
+                add(term(False, Fraction(0), cb, r.xs[0], r.idx[0], r.quant[0], Fraction(0)), dict(kind='vq-magnitude', kw=kw, mode=op, exact=True, mag=mag, codebook_mode=mode),
+                    nontrivial(cb, r.xs[0], r.idx[0]))
+            dist['magnitude_cases'] = dist.get('magnitude_cases', 0) + 1
+
+
 def make_input(rng, torch, layout, dim, exact, vq=None):
     b, n = rng.choice([(1, 1), (2, 3), (2, 5), (3, 2)])
     shape = {'seq': (b, n, dim), 'cfirst': (b, dim, n), 'image': (b, dim, 2, n)}[layout]
@@ -384,6 +420,7 @@ def correspond(ctx, scale):
         nt[0] += bool(nontriv)
     vq_cases(ctx, rng, scale, add, dist, failures)
     history_cases(ctx, rng, scale, add, dist, failures)
+    magnitude_cases(ctx, rng, scale, add, dist, failures)
     residual_cases(ctx, rng, scale, add, dist, failures)
     other_cases(ctx, rng, scale, add, dist, failures)
     bad, broken = core.run_cases(ctx, 'c01', HEADER, cases, per_file=30)
